@@ -51,10 +51,10 @@ def _dictclear(ex, st, args, n):
     return None
 
 
-def _parse_tuple(ex, st, args, n):
+def _parse_tuple(ex, st, args, n, fmt_index=2):
     """PyArg_ParseTuple(args, fmt, ...): on success (1) every output pointer receives an unconstrained value
     (for O! an object of the given type), on failure (0) an exception is set and nothing is stored"""
-    fmtnode = n['inner'][2]
+    fmtnode = n['inner'][fmt_index]
     while fmtnode.get('kind') in ('ImplicitCastExpr', 'ParenExpr'):
         fmtnode = fmtnode['inner'][0]
     if fmtnode.get('kind') != 'StringLiteral':
